@@ -150,6 +150,35 @@ def run(tier, seed, model_ok, spec_ok, replay=None):
                                        "spec": jval(ps), "api": part.descr()[:300]})
                 except Exception:
                     pass
+        # ---- part specs with SEVERAL dotted shorthands of one datum type, keys in any order (and-combined in key order)
+        for part in [p_ for p_ in pt.parts if not isinstance(p_, Prim)][:1]:
+            base = sg.part_spec(part)
+            if not isinstance(base, dict) or g.r.random() > 0.35:
+                continue
+            kinds_ = {"MapValue": ["value", "key"], "ListValue": ["value", "index"], "MapOrListValue": ["value", "key", "index"]}[part.PY]
+            extra = {}
+            for _ in range(g.r.randint(2, 3)):
+                dk = g.r.choice(kinds_)
+                clsn = {"value": ["Value", "ValueLength", "ValueDataType"], "key": ["Key", "KeyLength"], "index": ["Index"]}[dk]
+                lf = cg.leaf(doc, cls=g.r.choice(clsn), wrong_arity=0.0)
+                normalise_cond(lf)
+                types_under_dtype(lf)
+                sp_ = sg.leaf_spec(lf)
+                if sp_:
+                    (kk_, vv_), = sp_.items()
+                    head, _, tail = kk_.partition(".")
+                    extra[head.lower() + "." + tail] = vv_
+            items_ = list(base.items()) + [(k_, v_) for k_, v_ in extra.items() if k_ not in base]
+            g.r.shuffle(items_)
+            ps2 = dict(items_)
+            out2 = add("part", f"(run_part_from_spec {E.enc_val(ps2)})",
+                       lambda ps2=ps2: describe_part(v.datapath.ContainerValue.from_spec(fresh(ps2))), {"spec": jval(ps2), "several_shorthands": True})
+            # a mapping has no key order that matters for ACCEPTANCE: the same entries grouped by datum type are accepted iff these are
+            grouped = dict(sorted(ps2.items(), key=lambda kv: (kv[0].split(".")[0], kv[0])))
+            o3 = E.run_outcome(lambda: describe_part(v.datapath.ContainerValue.from_spec(copy.deepcopy(grouped))))
+            if out2 is not None and (out2[0] == "ok") != (o3[0] == "ok"):
+                direct.append({"kind": "direct", "what": "whether a part spec is accepted depends on the order of its keys", "spec": jval(ps2),
+                               "as_given": repr(out2)[:150], "grouped": repr(o3)[:150]})
         # ---- path specs with suffixes
         spec = sg.path_spec(pt)
         if spec is not None:
